@@ -392,9 +392,10 @@ func JSONUnmarshal(data []byte, v interface{}) error { return json.Unmarshal(dat
 // moves to which thread. Exactly one registered thread runs at a time.
 
 type nthread struct {
-	name   string
-	wake   chan struct{}
-	visits map[string]int
+	name    string
+	wake    chan struct{}
+	visits  map[string]int
+	noBaton bool // gave the baton away before a blocking channel operation
 }
 
 var (
@@ -527,6 +528,13 @@ func schedPoint(pos string, isJoin bool) {
 		if e == nil {
 			return
 		}
+		if e.Pos == pos+"/wait" {
+			// about to block in a channel operation: pass the baton on but do NOT park, so the
+			// real operation can rendezvous with its partner; After() waits for the baton
+			t.noBaton = true
+			handover(t, e.To, false)
+			return
+		}
 		handover(t, e.To, true)
 		if e.Pos == pos {
 			// after being switched back in at the same point the thread may still have a
@@ -536,3 +544,25 @@ func schedPoint(pos string, isJoin bool) {
 		return
 	}
 }
+
+// After follows a channel operation of the instrumented code: a thread that gave the baton
+// away to block in the operation waits here until the schedule hands it back.
+func After(pos string) {
+	if !schedOn {
+		return
+	}
+	t := me()
+	if t == nil || !t.noBaton {
+		return
+	}
+	<-t.wake
+	t.noBaton = false
+}
+
+// ---- C19 helper ----
+
+// FreeRun (C19): the harness drives real goroutines of the code under test and waits for them
+// itself (it polls until they are parked in their select), so its native replay needs no
+// imposed schedule: switch the baton scheduler off for this run even if the replay file
+// carries one. A no-op under the symbolic executor (see engine/intrinsics_c19.go).
+func FreeRun() { schedOn = false }
